@@ -11,6 +11,56 @@
 #include <sys/wait.h>
 using namespace c07;
 
+// ---- makeFeasible observables (bN8) ------------------------------------------------------------
+// `_subConstraintInfo[i]->satisfied` is what markCurrSubConstraintAsActive() leaves behind; the member is
+// protected, reached through a pointer-to-member named in a derived class (standard-conforming, no hook).
+struct CCPeek : cola::CompoundConstraint {
+    static const cola::SubConstraintInfoList &infos(const cola::CompoundConstraint &c) { return c.*(&CCPeek::_subConstraintInfo); }
+};
+// idleConstraints after `std::sort(.., cmpCompoundConstraintPriority)`: the same algorithm on the same comparison
+// results (priority only) leaves the same permutation; with overlap avoidance one NonOverlapConstraints object
+// (index = ccs.size()) is appended before the sort.
+static void printOrder(const cola::CompoundConstraints &ccs, bool overlap) {
+    std::vector<std::pair<unsigned, unsigned> > idle;
+    for (size_t i = 0; i < ccs.size(); ++i) idle.push_back(std::make_pair(ccs[i]->priority(), (unsigned) i));
+    if (overlap) idle.push_back(std::make_pair(cola::PRIORITY_NONOVERLAP, (unsigned) ccs.size()));
+    std::sort(idle.begin(), idle.end(), [](const std::pair<unsigned, unsigned> &a, const std::pair<unsigned, unsigned> &b) { return a.first < b.first; });
+    printf("order");
+    for (auto &p : idle) printf(" %u", p.second);
+    printf("\n");
+}
+#ifdef ADAPTAGRAMS_VERIF_MAKEFEASIBLE_HOOK
+struct MFTrial { const void *cc; int dim; unsigned alt; unsigned l, r; double gap; bool eq, accepted; };
+static std::vector<MFTrial> g_mfTrials;
+static void mfSink(const cola::CompoundConstraint *cc, int dim, unsigned alt, const vpsc::Constraint *c, bool accepted) {
+    MFTrial t; t.cc = cc; t.dim = dim; t.alt = alt; t.l = c->left->id; t.r = c->right->id; t.gap = c->gap; t.eq = c->equality; t.accepted = accepted;
+    g_mfTrials.push_back(t);
+}
+#endif
+static void mfArm() {
+#ifdef ADAPTAGRAMS_VERIF_MAKEFEASIBLE_HOOK
+    g_mfTrials.clear(); cola::verifMakeFeasibleSink = mfSink;
+#endif
+}
+// rectangles and satisfied flags right after a makeFeasible() call; `sfx` distinguishes the first call of a repeat case
+static void dumpMF(const vpsc::Rectangles &rs, const cola::CompoundConstraints &ccs, const char *sfx) {
+    for (size_t i = 0; i < rs.size(); ++i)
+        printf("mfout%s %zu %s %s %s %s\n", sfx, i, H(rs[i]->getMinX()), H(rs[i]->getMaxX()), H(rs[i]->getMinY()), H(rs[i]->getMaxY()));
+    for (size_t j = 0; j < ccs.size(); ++j) {
+        const cola::SubConstraintInfoList &l = CCPeek::infos(*ccs[j]);
+        printf("mfsat%s %zu %zu", sfx, j, l.size());
+        for (auto *i : l) printf(" %d", (int) i->satisfied);
+        printf("\n");
+    }
+#ifdef ADAPTAGRAMS_VERIF_MAKEFEASIBLE_HOOK
+    printf("mfhook%s 1\n", sfx);
+    for (auto &t : g_mfTrials)
+        printf("mftrial%s %ld %d %u %u %u %s %d %d\n", sfx, ccIndex(ccs, t.cc), t.dim, t.alt, t.l, t.r, H(t.gap), (int) t.eq, (int) t.accepted);
+    cola::verifMakeFeasibleSink = nullptr; g_mfTrials.clear();
+#endif
+    fflush(stdout);
+}
+
 // CML's GradientProjection::destroyVPSC clears the caller's UnsatisfiableConstraintInfos vector
 // without deleting the entries (a leak in the library, reported separately). To keep this
 // harness LSan-clean we remember every entry seen at the end of an iteration and free it.
@@ -135,6 +185,7 @@ static void layoutCase(long k, const vh::Args &a) {
     printf("algo %s\noverlap %d\nnstress %d\niters %u\n", an[algo], (int) overlap, (int) nstress, iters);
     printf("locks %u\ndesired %u\n", nlocks, ndes);
     fflush(stdout);
+    bool mfAlgo = algo >= 1 && algo <= 3;
     std::vector<std::pair<double, double> > size0;
 
     vpsc::Rectangles rs = buildRects(s.rects);
@@ -152,8 +203,9 @@ static void layoutCase(long k, const vh::Args &a) {
         if (ndes) alg.setDesiredPositions(&desired);
         alg.setAvoidNodeOverlaps(overlap);
         alg.setUseNeighbourStress(nstress);
+        if (mfAlgo) { printOrder(ccs, overlap); fflush(stdout); }
         exc = runGuarded([&]() {
-            if (algo >= 1) alg.makeFeasible();
+            if (algo >= 1) { mfArm(); alg.makeFeasible(); dumpMF(rs, ccs, ""); }
             if (algo != 1) alg.run();
         });
         printOut(rs);
@@ -252,7 +304,8 @@ static void repeatCase(long k, const vh::Args &a) {
     alg->setConstraints(ccs);
     alg->setUnsatisfiableConstraintInfo(&ux, &uy);
     alg->setAvoidNodeOverlaps(overlap);
-    exc = runGuarded([&]() { alg->makeFeasible(); });
+    printOrder(ccs, overlap); fflush(stdout);
+    exc = runGuarded([&]() { mfArm(); alg->makeFeasible(); dumpMF(rs, ccs, "1"); });
     for (size_t i = 0; i < rs.size(); ++i)
         printf("out1 %zu %s %s %s %s\n", i, H(rs[i]->getMinX()), H(rs[i]->getMaxX()), H(rs[i]->getMinY()), H(rs[i]->getMaxY()));
     if (exc == "none") {
@@ -267,7 +320,7 @@ static void repeatCase(long k, const vh::Args &a) {
             alg->setUnsatisfiableConstraintInfo(&ux, &uy);
             alg->setAvoidNodeOverlaps(overlap);
         }
-        exc = runGuarded([&]() { alg->makeFeasible(); });
+        exc = runGuarded([&]() { mfArm(); alg->makeFeasible(); dumpMF(rs, ccs, ""); });
     }
     printOut(rs);
     printUnsat(0, ux, ccs); printUnsat(1, uy, ccs);
